@@ -166,6 +166,24 @@ def autoStart (maxBoard nameLen : Nat) (es : List Entry) (kw : List Nat) (isAsc 
       else probeDesc maxBoard kw maxIterAutoComplete (downFrom es s.toNat) s.toNat
     if x = -1 then pure (-1) else pure (x + 1)
 
+/-! ### loading the table: cache.ReloadBCache and the busy flag -/
+
+/-- the part of the shared segment the loader touches: `BBusyState`, the loaded records, whether `BSorted` was
+rebuilt from them. -/
+structure LoadState where
+  busy : Bool
+  boards : List Board
+  sorted : Bool
+  deriving Repr, DecidableEq
+
+/-- cache.ReloadBCache with nobody else attached (a restarted daemon): the wait loop (10 × 1 s while the flag is
+set) changes nothing; then — whether or not the flag is still set: it can only be the leftover of a loader that died
+holding it — `reloadBCacheCore` takes the flag, loads `.BRD` and releases it, and `SortBCache` (which skips when the
+flag is set) finds it clear and rebuilds both orders. -/
+def reloadBCache (s : LoadState) (file : List Board) : LoadState :=
+  let core : LoadState := { busy := false, boards := file, sorted := false }   -- flag := 1; load; deferred flag := 0
+  if core.busy then core else { core with sorted := true }                     -- SortBCache
+
 /-! ### listings -/
 
 /-- what loadGeneralBoardStat keeps for a caller who may see every board (SYSOP) and no title/keyword filter:
